@@ -348,6 +348,40 @@ def matrix_cases():
         ((), ("load", {"rows": [{"n": 2}], "typed": {"need": 1}}, True)), ((), ("append", "rows", {"n": 3})), ((), ("reset", "rows")),
     ]
     cases = []
+    # a dynamic root: several keys added at run time, by assignment and by load, then read back
+    dyn_ops = [((), ("set", "extra", 1, "attr")), ((), ("set", "nokey", "v", "dotted")), ((), ("set", "zz", [1], "attr")),
+               ((), ("load", {"extra": 5, "zz": "w"}, True)), ((), ("load", {"nokey": None, "n": 7}, True)), ((), ("set", "n", 9, "attr")),
+               ((), ("reset", "extra")), ((), ("validate", True))]
+    for i1, i2, i3 in itertools.product(range(len(dyn_ops)), repeat=3):
+        if len({i1, i2, i3}) >= 2:
+            cases.append(dict(base, dyn=True, kw={}, ops=[dyn_ops[i1], dyn_ops[i2], dyn_ops[i3]], kind="matrix-dyn"))
+    # a sub-configuration whose feature flag is off, declared BEFORE / BETWEEN / AFTER siblings that fail validation
+    def _off(name):
+        return (name, {"t": "sub", "dyn": False, "vals": [], "fields": [
+            ("enabled", {"t": "leaf", "kind": ("flag",), "required": False, "default": False, "callable": False, "sensitive": False}),
+            ("need", {"t": "leaf", "kind": ("int", None, None), "required": True, "default": None, "callable": False, "sensitive": False})]})
+    def _need(name):
+        return (name, {"t": "leaf", "kind": ("int", None, None), "required": True, "default": None, "callable": False, "sensitive": False})
+    def _subneed(name):
+        return (name, {"t": "sub", "dyn": False, "vals": [], "fields": [_need("must")]})
+    for order in (["off", "need"], ["need", "off"], ["off", "subneed"], ["subneed", "off"], ["off", "off2", "need"], ["ok", "off", "subneed", "need"],
+                  ["off", "rows"], ["off", "ok"]):
+        fl = []
+        for nm in order:
+            if nm.startswith("off"):
+                fl.append(_off(nm))
+            elif nm == "need":
+                fl.append(_need("need"))
+            elif nm == "subneed":
+                fl.append(_subneed("subneed"))
+            elif nm == "rows":
+                fl.append(("rows", {"t": "cfglist", "required": True, "vals": [], "fields": item}))
+            else:
+                fl.append(("ok", {"t": "leaf", "kind": ("int", 1, 100), "required": False, "default": 3, "callable": False, "sensitive": False}))
+        for tail in ([((), ("validate", False))], [((), ("validate", True))], [((), ("load", {}, True))],
+                     [((), ("load", {"off": {"enabled": True}}, True))], [((), ("load", {"off": {"enabled": True, "need": 1}}, True)), ((), ("validate", False))],
+                     [((), ("loads", "json", {}, "none"))]):
+            cases.append({"vt": [], "dyn": False, "vals": [], "fields": fl, "kw": {}, "ops": list(tail), "kind": "matrix-off"})
     # the list operations again on a configuration whose list already holds two items (constructor keyword)
     for o in ops:
         touches_list = (o[1][0] in ("append", "insert", "setidx") or (o[1][0] in ("set", "reset") and o[1][1] == "items")
@@ -361,6 +395,11 @@ def matrix_cases():
         cases.append(dict(base_b, kw={}, ops=[o1, o2], kind="matrix2b"))
     for o in ops:
         cases.append(dict(base, kw={}, ops=[o], kind="matrix1"))
+    # documents that parse but put a scalar / list / null where a sub-configuration or a list of configurations is declared
+    for fmt in FORMATS:
+        for tree in ({"sub": 5}, {"sub": None}, {"sub": [1]}, {"sub": "x"}, {"sub": {"inner": 5}}, {"sub": {"inner": None}}, {"sub": {"inner": [1]}},
+                     {"items": 5}, {"items": {"n": 1}}, {"items": [5]}, {"items": [[1]]}, {"n": {"a": 1}}, {"n": [1]}, {"sub": True}):
+            cases.append(dict(base, kw={}, ops=[((), ("loads", fmt, tree, "none"))], kind="matrix1"))
     for kwk, kwv in [("n", None), ("c", None), ("n", 5), ("n", 0), ("s", " Ab "), ("s", ""), ("sub", {"a": 1}), ("sub", {"a": 100}), ("items", [{"n": 1}]),
                      ("items", [{"n": 50}]), ("nokey", 1), ("c", {"x": [1]})]:
         cases.append(dict(base, kw={kwk: kwv}, ops=[((), ("validate", True))], kind="matrix-ctor"))
@@ -803,7 +842,25 @@ def impl(c):
                         defined_api[pjoin(pth, key)] = (is_value_defined(root, pjoin(pth, key)), key not in obj._default_value_keys)
                     except Exception as e:  # noqa
                         defined_api[pjoin(pth, key)] = (type(e).__name__, key not in obj._default_value_keys)
-        trace.append({"ps": ps, "op": o, "out": out, "before": prev, "after": snap, "same": same, "tpath": tpath,
+        # what a caller READS through the public getters, against what is stored (C01 speaks of readable values)
+        readback = []
+        for pth, obj in after:
+            for key in list(obj._data):
+                stored = obj._data[key]
+                for how, rd in (("attribute", lambda: getattr(obj, key)), ("item", lambda: obj[key])):
+                    if how == "attribute" and not key.isidentifier():
+                        continue
+                    try:
+                        got = rd()
+                    except Exception as e:  # noqa
+                        readback.append("reading %s by %s raises %s" % (pjoin(pth, key), how, type(e).__name__))
+                        continue
+                    if is_cfg(stored) or isinstance(stored, (list, dict)):
+                        if got is not stored:
+                            readback.append("reading %s by %s yields another object than the stored one" % (pjoin(pth, key), how))
+                    elif got != stored or type(got) is not type(stored):
+                        readback.append("reading %s by %s yields %r, the configuration holds %r" % (pjoin(pth, key), how, got, stored))
+        trace.append({"ps": ps, "op": o, "out": out, "before": prev, "after": snap, "same": same, "tpath": tpath, "readback": readback,
                       "vlog": list(b.validator_log), "both": both, "defined_api": defined_api, "text": LAST_TEXT[0]})
         steps.append((out if not (isinstance(out, tuple) and out[0] == "err") else ("err", out[1]), snap, same))
         before_ids = ids
@@ -978,6 +1035,7 @@ def oracle_for(prop, c, obs):
                     bad.append("rejected %s %r replaced nested configuration objects: %r" % (o[0], o[1:3], st["same"]))
         if prop == "C01":
             check_wf(fields, after, "", bad)
+            bad.extend(st.get("readback") or [])
             if out == "ok" and o[0] == "set":
                 # frame: nothing but the assigned slot changes
                 if canon_snap(strip_key(before, tsteps, o[1])) != canon_snap(strip_key(after, tsteps, o[1])):
@@ -1053,6 +1111,20 @@ def oracle_for(prop, c, obs):
                     bad.append("error path %r does not lie below the assigned field(s) %r of %r" % (p, top_keys, tpath))
                 if o[0] == "set" and target_declared and declared[o[1]]["t"] == "leaf" and p != pjoin(tpath, o[1]):
                     bad.append("error path %r, expected %r" % (p, pjoin(tpath, o[1])))
+        if prop == "C15" and is_err and o[0] == "loads":
+            # a document that PARSES and is then rejected: the rejection is about a value of a declared field
+            parsed = parse_direct(o[1], make_document(o[1], o[2], o[3]), o[2])
+            kind = out[1]
+            if parsed[0] == "ok" and not (isinstance(kind, tuple) and kind[0] == "validation"):
+                declared = dict(node_at(fields, tsteps))
+                loaded = parsed[1]
+                if kind == "attribute" and any(k not in declared for k in loaded):
+                    pass      # top-level undeclared key: as for load_tree
+                elif kind == "attribute" and has_undeclared(c, tsteps, ("load", loaded)):
+                    st["_class"] = "F33"
+                    bad.append("F33: undeclared key inside a map raises AttributeError")
+                else:
+                    bad.append("loading a %s document that parses to %r is rejected with %r instead of a ValidationError" % (o[1], loaded, kind))
         if prop == "C11":
             both = st["both"]
             if both is not None:
